@@ -100,6 +100,9 @@ def run(pid, tier, replay=None):
     nested = "1" if pid == "C05" else os.environ.get("VERIF_NESTED", "1")
     if run_reg(c, exe, ["record", str(vlib.seed()), str(cnt), nested, tr], "record") is not None:
         validate(c, pid, tr, "rand")
+    if pid == "C01":
+        from checks import c10
+        c10.legs(c, "C01", tier)        # producer 3: retain on a well-formed registry
     c.cov["exhaustive"] = True
     c.cov["rule"] = ("design: all universes on 3 identities with <=2 ordered children (2197 graphs, alias spellings on edges, 11 definition shapes) x all histories of 3 registrations%s; "
                      "spec->impl: every terminal behaviour replayed through runtime-configurable Node<I> types on the real Registry; "
@@ -120,6 +123,7 @@ def replay_cases(c, pid, exe, cases_file, ncases):
     c.add("behaviours_replayed_on_impl", ncases)
     c.add("traces_validated_against_impl", ncases)
     mine = []
+    c.add("model_disagreements", sum(1 for m in vlib.ndjson_read(mf) if any(x["aspect"] == "model" for x in m["mismatch"])))
     for m in vlib.ndjson_read(mf):
         a = [x for x in m["mismatch"] if x["aspect"] == ASPECT[pid]]
         if a:
